@@ -206,8 +206,72 @@ end Slicec.Gen
     return text, len(sarms) + len(uarms) + len(srows) + len(urows) + 4
 
 
+def strip_test_modules(src):
+    """drop `#[cfg(test)] mod x { ... }` blocks"""
+    out, i = [], 0
+    for m in re.finditer(r"#\[cfg\(test\)\]\s*(?:#\[[^\]]*\]\s*)*mod\s+\w+\s*\{", src):
+        if m.start() < i:
+            continue
+        out.append(src[i:m.start()])
+        blk = block_after(src, m.end() - 1)
+        i = m.end() + (len(blk) if blk is not None else 0) + 1
+    out.append(src[i:])
+    return "".join(out)
+
+
+PANIC_PAT = re.compile(r"\b(todo!|unimplemented!|panic!|unreachable!|assert!|assert_eq!|assert_ne!)\s*\(|\.unwrap\(\)|\.expect\(")
+
+
+def gen_codec_panics(repo):
+    T = "CodecPanics"
+    sites = []
+    base = os.path.join(repo, "slice-codec", "src")
+    if not os.path.isdir(base):
+        raise ExtractionError(T, "slice-codec/src", "directory missing")
+    for dirpath, _, files in sorted(os.walk(base)):
+        for fn in sorted(files):
+            if not fn.endswith(".rs") or fn.endswith("_tests.rs") or fn == "tests.rs":
+                continue
+            rel = os.path.relpath(os.path.join(dirpath, fn), repo)
+            src = strip_test_modules(read(repo, rel, T))
+            for ln, line in enumerate(src.splitlines(), 1):
+                for m in PANIC_PAT.finditer(line):
+                    sites.append(f"{rel}: {line.strip()[:60]}")
+    # the HashMap reservation must be capped by the unread input
+    rel = "slice-codec/src/decoding.rs"
+    dsrc = read(repo, rel, T)
+    m = re.search(r"impl<K,\s*V>\s*DecodeFrom\s+for\s+HashMap<K,\s*V>", dsrc)
+    if not m:
+        raise ExtractionError(T, rel, "HashMap DecodeFrom impl not found")
+    body = block_after(dsrc, m.end())
+    r = re.search(r"map\.try_reserve\(([^;]*)\)\?;", body)
+    if not r:
+        reserve = "announced * 0"  # no reservation at all
+    else:
+        arg = re.sub(r"\s+", "", r.group(1))
+        if arg in ("usize::min(length,decoder.remaining())", "length.min(decoder.remaining())", "core::cmp::min(length,decoder.remaining())",
+                   "usize::min(decoder.remaining(),length)"):
+            reserve = "min announced remaining"
+        elif arg == "length":
+            reserve = "announced + remaining * 0"
+        else:
+            raise ExtractionError(T, rel, f"HashMap reservation argument `{arg}` not understood")
+    def q(x):
+        return '"' + x.replace("\\", "\\\\").replace('"', '\\"') + '"'
+    text = f"""-- GENERATED by translator/extract.py from slice-codec/src — do not edit.
+namespace Slicec.Gen
+/-- panic-capable macro / method sites in non-test code of slice-codec -/
+def codecPanicSites : List String := [{", ".join(q(x) for x in sites)}]
+/-- what `HashMap::decode_from` pre-allocates, as a function of the announced length and the unread bytes -/
+def hashMapReserve (announced remaining : Nat) : Nat := {reserve}
+end Slicec.Gen
+"""
+    return text, len(sites) + 1
+
+
 TABLES = {
     "VarintArms": gen_varint_arms,
+    "CodecPanics": gen_codec_panics,
 }
 
 
